@@ -55,7 +55,7 @@ CHECKS = {
          "Trusts the harness's 15-entry code<->set bijection; U is outside the algebra.", "DESIGN.md §5 C15"),
  "C17": ("exploration", "bounded exhaustive enumeration of planted-SNP families (site subsets on a 2k/2k+1 grid x allele assignments x orientations x reference mode x -m) through the CLI under owned hash seeds, vs planted truth; well-formedness family outside the premise",
          "Every biallelic split for 3..5 samples, triallelic assignments, larger carrier patterns, every subset of a grid whose spacing sits exactly on the premise's boundary, with and without reference, for k up to 33 (the 64/128-bit boundary): completeness without reference, soundness with reference, well-formedness on every run.",
-         "One thread (thread counts and schedules are C11's); hash seeds 2 (quick) / 4 (thorough); release-profile arithmetic.", "DESIGN.md §5 C17"),
+         "One thread (thread counts and schedules are C11's); hash seeds 2 (quick) / 3 (thorough); release-profile arithmetic.", "DESIGN.md §5 C17"),
  "C18": ("exploration", "bounded exhaustive enumeration of planted-indel families (lengths 1..10, every carrier set for 3..5 samples, 1..3 indels 4k apart) through the CLI; every record judged against the true sequences; recall over the family",
          "Each record's before+REF/ALT+after must be a substring of exactly the samples genotyped for it; every carrier set (both polarities, ties included) and every length is enumerated, duplicates and unexplained records are violations, and recall is measured over the whole family (>= 90% required).",
          "One thread; declared hash seeds; release-profile arithmetic (debug builds panic on a usize underflow for short deletion paths).", "DESIGN.md §5 C18"),
